@@ -10,6 +10,8 @@
   ALL values — it contains no partial operation at all.
 -/
 import Hs.Model.ZincEnc
+import Hs.Model.Hayson
+import Hs.Model.ZincParse
 import Hs.Gen.PanicSites
 namespace Hs.C10
 open Hs Hs.Zinc
@@ -36,6 +38,16 @@ theorem empty_containers_write_nothing :
 function on all of `Val` — for every value, well-formed or not, of any depth, there is an output. -/
 theorem C10_zinc : ∀ (v : Val) (nested : Bool), ∃ bs : List UInt8, enc v nested = bs :=
   fun v nested => ⟨enc v nested, rfl⟩
+
+/-- The Hayson `Serialize` impls: the tree-level model is a total function on all of `Val` as well. -/
+theorem C10_json : ∀ v : Val, ∃ j : Hs.Hayson.Json, Hs.Hayson.toJson v = j :=
+  fun v => ⟨Hs.Hayson.toJson v, rfl⟩
+
+/-- In particular every value in the image of either decoder (whatever text it came from) can be
+offered to either encoder: the encoders have no precondition. -/
+theorem C10_image (bs : List UInt8) (v : Val) (_h : fromBytes bs = .ok v) :
+    (∃ out, encode v = out) ∧ (∃ j, Hs.Hayson.toJson v = j) :=
+  ⟨⟨encode v, rfl⟩, ⟨Hs.Hayson.toJson v, rfl⟩⟩
 
 /-- an ill-formed value of the kind that used to panic (`XStr` with an empty type) has an encoding -/
 example : encode (.xstr [] ['x']) = [40, 34, 120, 34, 41] := by decide +kernel
